@@ -48,15 +48,15 @@ PROPERTY = "C18"
 LEVEL = "exploration"
 NEEDS_RUST = True
 RULE = (
-    "Hypothesis scenarios (quick 16 shards x 28, thorough 16 x 1500; even shards Rust extensions, odd shards pure-Python "
+    "Hypothesis scenarios (quick 16 shards x 60, thorough 16 x 2500; even shards Rust extensions, odd shards pure-Python "
     "twins): 5-9 path components drawn from a flavour pool (plain incl. the a/a.b/a-/a0/ab sort-collision family and a "
     "File/file case pair; special = spaces, quotes, newline, tab, backslash, glob and shell characters, control bytes, "
     "UTF-8 incl. NFD; non-UTF-8 bytes), 2-3 of them also used as directory names (so file/directory collisions at one "
     "path are frequent), depth <= 3; tree A of 1-8 entries (regular/executable/symlink; contents empty, 1 byte, text, "
     "CRLF, NUL bytes, same-size pairs, 64 KiB+1; link targets to files, directories, dangling, absolute, non-UTF-8), "
-    "trees B and C derived from A by 1-4 tree edits (content, mode, file<->symlink, file->dir, dir->file, delete, add) "
+    "trees B and C derived from A by 1-4 tree edits (content, mode, link retarget, file<->symlink, file->dir, dir->file, delete, add) "
     "or independent; initial checkout by reset_index (build_index_from_tree) / porcelain.checkout from an empty commit "
-    "/ porcelain.reset --hard / porcelain.clone; then 1-10 (thorough 1-16) operations: modify same size, modify "
+    "/ porcelain.reset --hard / porcelain.clone; then 2-12 (thorough 2-16) operations: modify same size, modify "
     "different size, touch, chmod, delete file, delete directory, add untracked file/symlink/dir, file|dir->symlink, "
     "symlink|dir->file, file|symlink->dir, rename, porcelain.add(all), porcelain.add(paths), WorkTree.stage, "
     "WorkTree.unstage, porcelain.remove(cached), porcelain.commit, porcelain.reset mixed/hard, porcelain.checkout(branch) "
@@ -78,7 +78,9 @@ ASSUMPTIONS = [
     "one item on which the three-map model and git status disagree (known: a collapsed untracked directory d/ in normal "
     "mode when d is itself an index entry) is accepted either way",
     "a refused dirty switch may leave the work tree partially updated and a switch may overwrite a colliding untracked "
-    "file: both are counted as labels, not failures (the statement does not speak about them)",
+    "file: both are counted as labels, not failures (the statement does not speak about them); likewise an exception "
+    "from porcelain.reset(hard) or from a dirty switch that is not a TypeError/UnicodeError/KeyError/... counts as a refusal",
+    "symlink loops are out of the generated domain (a scenario that creates one ends there)",
 ]
 
 
@@ -120,7 +122,8 @@ OPS_WEIGHTED = (
     + ["reset_hard"] * 2 + ["checkout"] * 8
 )
 TYPE_CHANGE_OPS = {"to_symlink", "to_file", "to_dir"}
-TREE_EDITS = ["content", "content", "mode", "retype", "retype", "to_dir", "to_dir", "to_file", "to_file", "delete", "add", "add"]
+TREE_EDITS = ["content", "content", "mode", "mode", "retype", "retype", "to_dir", "to_dir", "to_file", "to_file", "delete", "add", "add",
+              "retarget"]
 INITS = ["reset_index", "checkout", "reset_hard", "clone"]
 KIND_MODE = {"f": REG, "x": EXE, "l": LNK}
 MODE_KIND = {REG: "f", EXE: "x", LNK: "l"}
@@ -212,7 +215,11 @@ def _derive_tree(base, universe, names, edits):
             kind, spec = tree[p]
             if name == "content":
                 if kind == "l":
-                    t = TARGETS[s2 % len(TARGETS)]
+                    if s3 % 2:
+                        cur = content(spec)  # another target of the same length
+                        t = cur[:-1] + (b"b" if cur[-1:] != b"b" else b"c")
+                    else:
+                        t = TARGETS[s2 % len(TARGETS)]
                     tree[p] = ("l", ("raw", t if ("raw", t) != spec else t + b"2"))
                 else:
                     new = CONTENTS[s2 % len(CONTENTS)]
@@ -239,6 +246,12 @@ def _derive_tree(base, universe, names, edits):
             elif name == "delete":
                 if len(tree) > 1:
                     del tree[p]
+        elif name == "retarget":  # a symlink stays a symlink, the target changes but not its length
+            links = [p for p in paths if tree[p][0] == "l"]
+            if links:
+                p = links[s1 % len(links)]
+                cur = content(tree[p][1])
+                tree[p] = ("l", ("raw", cur[:-1] + (b"b" if cur[-1:] != b"b" else b"c")))
         elif name == "to_file":
             dirs = sorted({b"/".join(p.split(b"/")[:i]) for p in tree for i in range(1, p.count(b"/") + 1)})
             if not dirs:
@@ -665,8 +678,10 @@ class Runner:
                         key = f"untracked{m}:{direction}:{wk}:{self._tracked_kind(q)}" + (":as-dir" if p.endswith(b"/") else "")
                     else:
                         h, i = self.H.get(q), self.I.get(q)
-                        key = f"staged-{field}:{direction}:H={MODE_KIND[h[0]] if h else '-'}:I={MODE_KIND[i[0]] if i else '-'}" + (
-                            ":same-sha" if h and i and h[1] == i[1] else "")
+                        if h and i and h[1] == i[1]:
+                            key = f"staged-{field}:{direction}:mode-only"  # same blob: x bit or file<->symlink
+                        else:
+                            key = f"staged-{field}:{direction}:H={MODE_KIND[h[0]] if h else '-'}:I={MODE_KIND[i[0]] if i else '-'}"
                     self.fail(
                         f"C18:status:{key}",
                         f"porcelain.status(untracked_files={mode!r}).{field}: {p!r} is {direction}; dulwich {sorted(dul[field])!r}, "
@@ -885,15 +900,15 @@ class Runner:
         from dulwich import porcelain
 
         pre_I, pre_W = dict(self.I), {p: v[:2] for p, v in self.W.items()}
-        # untracked content at a place where HEAD needs a directory (or the reverse): git deletes it, dulwich may refuse
-        in_the_way = [p for p in self.W if p not in self.I and p not in self.H and not fits(self.H, p)]
-        in_the_way += [d for d in self.dirs if d in self.H and not M.has_prefix(sorted(self.I), d + b"/")]
         try:
             porcelain.reset(self.repo, "hard", "HEAD")
         except Exception as e:
             self.sync()
-            if in_the_way and not isinstance(e, BUG_TYPES):
-                self.labels.add(f"reset-hard-refused-untracked-in-the-way:{type(e).__name__}")
+            if not isinstance(e, BUG_TYPES):
+                # git reset --hard deletes whatever is in the way; dulwich refuses in several file<->directory situations
+                # (untracked or modified content where HEAD needs a directory, ...).  The statement does not speak about
+                # reset, so a refusal is only counted; a reset that *returns* is held to "state == HEAD" below.
+                self.labels.add(f"reset-hard-refused:{type(e).__name__}")
                 return
             self.crashed("porcelain.reset(hard)", e)
             return
@@ -1395,6 +1410,6 @@ def run(ctx):
     ctx.note("git_version", cgit.version())
     st = os.stat(ctx.scratch.path)
     ctx.note("scratch_fs_has_subsecond_timestamps", bool(st.st_mtime_ns % 1_000_000_000))
-    per = ctx.scale(60, 4000)
+    per = ctx.scale(60, 2500)
     maxops = ctx.scale(12, 16)
     ctx.parallel(_part, [(per, maxops)] * 16)
